@@ -1,6 +1,6 @@
 PROPERTY = {
     'id': 'C10',
-    'extra': ['bounded.c11_fresh.run'],
+    'extra': ['bounded.c11_fresh.run', 'bounded.c15_agree.run'],
     'contract_modules': ['doctest_example', 'runner', 'util_stream', 'checker', 'doctest_part'],
     'uses': {'xdoctest.doctest_example:DocTest.run': 'C09'},
     'functions': ['xdoctest.runner:_run_examples', 'xdoctest.doctest_example:DocTest._post_run',
@@ -23,7 +23,8 @@ PROPERTY = {
               'main (region from the doctest_module call): exit status 1 iff n_failed > 0, else 0',
               'cmdline of a native doctest names it by path and callname:num (the text `list` prints is the join of these '
               'over ALL parsed examples: the comprehension has no filter)'],
-        'B': ['the real RuntimeState on a few default dicts x directive sequences: no aliasing of the defaults handed in (a shared state dict would let one doctest\'s directives change the next one\'s verdict and the tallies)'],
+        'B': ['generated modules of doctests with constructed outcomes run by the native runner (and pytest): n_passed / n_failed / n_skipped / n_total and the failed list equal the constructed counts, failure is signalled exactly when one failed (bounded/c15_agree.py)',
+              'the real RuntimeState on a few default dicts x directive sequences: no aliasing of the defaults handed in (a shared state dict would let one doctest\'s directives change the next one\'s verdict and the tallies)'],
         'T': ['DocTest.run: exactly one of passed/failed/skipped per summary and no Exception escapes with on_error="return" '
               '(assumed here until the contract of run is discharged; C02.verdict / C09.noraise)',
               're.match as an uninterpreted predicate per (pattern, flags)',
